@@ -6,7 +6,7 @@ from ..cp import batch, is_zero, row_writers
 from ..common import STEP_FN, step_roles
 from ..effects import stores
 from ..rdef import flow_of, ENTRY
-from ..model import norm, walk_no_nested
+from ..model import norm, walk_no_nested, AnalysisError
 
 EXPLANATION = (
     "C19.a: interprocedural constant propagation of the daily step with water_table=0: check_groundwater_table returns "
@@ -15,7 +15,8 @@ EXPLANATION = (
     "content in the step: no statement after its call stores STATE.th (rebinding or in place), so compartments it "
     "saturates stay saturated at the end of the day (effect summaries over access paths + CFG order). C19.c: its loop runs from "
     "the first compartment whose centre is at or below the table to the bottom of the profile and sets each cell to the "
-    "saturation value of that same compartment (index agreement through temporaries). NOT decided: range "
+    "saturation value of that same compartment (index agreement through temporaries). C19.d: every read of the adjusted field capacity (and of any other daily-updated state field of which "
+    "initialisation leaves a snapshot in the static profile) below the step goes through the state, never through the snapshot. NOT decided: range "
     "of adjusted field capacity, capillary-rise limit, interpolation of observations, equivalence of a very deep table "
     "with none (numeric).")
 
@@ -73,6 +74,60 @@ def rule_c(chk, prog):
                               f"a compartment below the water table is set to {('%s[%s]' % rb) if rb else norm(a.value)}, not to its own saturation "
                               f"th_s[{cell_idx}]: it does not end the day saturated (or ends above saturation)", loc=gw.loc(a))
     chk.floor("C19.c", n, 1, "stores to the water content in groundwater_inflow")
+
+
+def rule_d(chk, prog):
+    """the adjusted field capacity follows the water table day by day: check_groundwater_table recomputes the state's th_fc_Adj at the
+    start of every step. Initialisation also leaves a snapshot of it in the static soil profile (frame column / SoilProfile array).
+    Every read of a daily-updated state field below the step goes through the state, never through such a snapshot."""
+    from ..common import init_roles
+    sr, ir = step_roles(prog), init_roles(prog)
+    daily = set()
+    for key in sorted(sr.reached):
+        fi = prog.funcs[key]
+        for st in stores(prog, fi, sr):
+            for p in st.paths:
+                m = re.match(r"^STATE\.(\w+)", p)
+                if m:
+                    daily.add(m.group(1))
+    # snapshots: initialisation stores <non-state object>.f / [..."f"...] = <something read from the state's f>
+    snap = {}
+    for key in sorted(ir.reached):
+        fi = prog.funcs[key]
+        for a in walk_no_nested(fi.node):
+            if not isinstance(a, ast.Assign):
+                continue
+            t = a.targets[0]
+            f = t.attr if isinstance(t, ast.Attribute) else (t.slice.value if isinstance(t, ast.Subscript) and isinstance(t.slice, ast.Constant)
+                                                              and isinstance(t.slice.value, str) else None)
+            if f is None or f not in daily:
+                continue
+            base = t.value
+            if any(p.startswith("STATE") for p in ir.paths(fi, base)):
+                continue
+            if any(isinstance(x, ast.Attribute) and x.attr == f and any(p.startswith("STATE") for p in ir.paths(fi, x.value)) for x in ast.walk(a.value)):
+                snap.setdefault(f, []).append(f"{fi.qualname}: {norm(a)[:70]}")
+    chk.notes["state_fields_snapshotted_at_initialisation"] = snap
+    if "th_fc_Adj" not in daily:
+        raise AnalysisError("the step no longer updates STATE.th_fc_Adj")
+    fields = sorted(set(snap) | {"th_fc_Adj"})
+    n = 0
+    for key in sorted(sr.reached):
+        fi = prog.funcs[key]
+        where = f"{fi.module}:{fi.qualname}"
+        for x in walk_no_nested(fi.node):
+            if isinstance(x, ast.Attribute) and isinstance(x.ctx, ast.Load) and x.attr in fields:
+                ps = sr.paths(fi, x.value)
+                n += 1
+                chk.fn(key)
+                stale = sorted(p for p in ps if p.startswith("PARAM") or p.startswith("USER"))
+                if stale:
+                    chk.violation("C19.d", where, norm(x), f"reads {x.attr} from {', '.join(stale)} - the snapshot taken at initialisation - instead of the "
+                                  "state's value of the day: with a water table that moves, compartments are compared with / filled up to the adjusted "
+                                  "field capacity of the first day", loc=fi.loc(x))
+                else:
+                    chk.ok("C19.d", where, norm(x), "the state's value of the day (" + (", ".join(sorted(ps)) or "local") + ")", nontrivial=False)
+    chk.floor("C19.d", n, 5, "reads of the adjusted field capacity below the step")
 
 
 def run(chk, prog, tier):
@@ -160,6 +215,7 @@ def run(chk, prog, tier):
                             chk.ok("C19.b", STEP_FN, construct, "no store to STATE.th in the callee or its callees")
     chk.floor("C19.b", n_checked, 8, "statements / calls after groundwater_inflow examined")
     rule_c(chk, prog)
+    rule_d(chk, prog)
     chk.assume("A-1")
     chk.assume("A-10")
     chk.exhaustive = True
